@@ -90,6 +90,14 @@ func (ip *Interp) registerHarnessAPI() {
 		v := ip.concretize(t, "verifConcrete")
 		return ip.st.Const(t.W, v)
 	})
+	h("verifAllocBegin", func(ip *Interp, fr *frame, args []Value) Value {
+		ip.path.allocOn = true
+		return nil
+	})
+	h("verifAllocEnd", func(ip *Interp, fr *frame, args []Value) Value {
+		ip.path.allocOn = false
+		return nil
+	})
 	h("verifB2I", func(ip *Interp, fr *frame, args []Value) Value {
 		return ip.st.B2BV(args[0].(*Term), 64)
 	})
@@ -134,6 +142,9 @@ func (ip *Interp) installAllocMonitor(p *Path, cfg *HarnessConfig) {
 	st := ip.st
 	p.AllocTotal = st.Const(64, 0)
 	p.AllocHook = func(ip *Interp, site ssa.Instruction, bytes *Term) {
+		if !p.allocOn {
+			return
+		}
 		if bytes.IsConst() && bytes.Val <= perSite {
 			// concrete small allocation: accumulate only
 			p.AllocTotal = st.Bin(OpAdd, p.AllocTotal, bytes)
@@ -147,7 +158,14 @@ func (ip *Interp) installAllocMonitor(p *Path, cfg *HarnessConfig) {
 			ip.addPC(ok)
 			return
 		}
-		res, m := ip.query(st.Not(ok))
+		// prefer a witness whose request is small enough to replay natively
+		res, m := ip.query(st.AndAll(st.Not(ok), st.Cmp(OpULe, bytes, st.Const(64, 256<<20)), st.Cmp(OpULe, st.Const(64, 8<<20), bytes)))
+		if res != Sat {
+			res, m = ip.query(st.And(st.Not(ok), st.Cmp(OpULe, bytes, st.Const(64, 256<<20))))
+		}
+		if res != Sat {
+			res, m = ip.query(st.Not(ok))
+		}
 		switch res {
 		case Sat:
 			ip.allocViolationAt(site, "alloc", m, ok)
